@@ -8,6 +8,26 @@ _NOTE = ('trusted base: the simulator itself (SimLoop, SimKernel, fake ZeroMQ) '
 _TECH = 'deterministic simulation with fault injection'
 
 META = {
+    'C06': {
+        'level': 'exploration',
+        'text': 'daemon half: seeded sequences of control messages from four '
+                'layers (arbitrary bytes; arbitrary JSON values; objects '
+                'with id/command/properties/msg_type independently missing, '
+                'null or ill-typed; every registered command in any letter '
+                'case with valid, corrupted and unknown properties, waiting '
+                'and cast on/off) against daemons with hook scripts and exec '
+                'failures; every frame written to the ROUTER stream is '
+                'attributed to its message (exactly one 2-frame reply with '
+                'the message id and status ok/error, none for casts, '
+                'liveness probe). client half: CircusClient and '
+                'AsyncCircusClient calls over a simulated transport with '
+                'delay, duplication, reordering, loss and injected stale / '
+                'foreign / null-id replies, checked for id filtering and '
+                'timeout timing on the virtual clock',
+        'note': _NOTE + '; multi-frame requests, quit and daemon restart '
+                'messages are outside the daemon-half claim (C08)',
+        'technique': _TECH + ' (frame-level reply accounting; client calls '
+                     'over a faulty simulated transport)'},
     'C15': {
         'level': 'exploration',
         'text': 'daemons loaded from generated ini files, driven through '
